@@ -732,7 +732,7 @@ Definition enc_frame_hdr (nbytes old_n dur : Z) (rsv : list Z) (new_n : Z) : lis
 
 (* what follows the frame header: n chunks *)
 Definition frame_body (nbytes dur n : Z) : IT rawframe :=
-  st <- iterZ n read_chunk ([], nbytes - 16) ;; Ret (dur, rev (fst st)).
+  st <- iterZ n read_chunk ([], nbytes - 16) ;; Ret (dur, frev (fst st)).
 
 Section CountField.
 Variable inflate : list Z -> Z -> zres.
@@ -740,14 +740,14 @@ Variable inflate : list Z -> Z -> zres.
 Definition frame_body_process (fmt : pixfmt) (p : pinfo) (fid nbytes dur n : Z) : IT pinfo :=
   if pi_nframes p <=? fid then Crash 103 else
   st <- iterZ n read_chunk ([], nbytes - 16) ;;
-  lift (rfold (process_chunk inflate fmt fid) (rev (fst st)) (with_times p (zadd fid dur (pi_times p)))).
+  lift (rfold (process_chunk inflate fmt fid) (frev (fst st)) (with_times p (zadd fid dur (pi_times p)))).
 
 Lemma frame_chunks_enc nb old dur rsv new rest :
   junk 2 rsv ->
   run frame_chunks (enc_frame_hdr nb old dur rsv new ++ rest)
   = run (frame_body nb dur (if new =? 0 then old else new)) rest.
 Proof.
-  intros Hj. unfold frame_chunks, enc_frame_hdr. repeat rewrite <- app_assoc.
+  intros Hj. unfold frame_chunks, enc_frame_hdr; rewrite ?frev_eq. repeat rewrite <- app_assoc.
   rewrite run_bind, run_dword. rewrite run_bind, run_word.
   change (negb (61946 =? 61946)) with false. cbv iota.
   rewrite run_bind, run_word. rewrite run_bind, run_word.
@@ -760,7 +760,7 @@ Lemma parse_frame_enc fmt p fid nb old dur rsv new rest :
   run (parse_frame inflate fmt p fid) (enc_frame_hdr nb old dur rsv new ++ rest)
   = run (frame_body_process fmt p fid nb dur (if new =? 0 then old else new)) rest.
 Proof.
-  intros Hj. unfold parse_frame, enc_frame_hdr. repeat rewrite <- app_assoc.
+  intros Hj. unfold parse_frame, enc_frame_hdr; rewrite ?frev_eq. repeat rewrite <- app_assoc.
   rewrite run_bind, run_dword. rewrite run_bind, run_word.
   change (negb (61946 =? 61946)) with false. cbv iota.
   rewrite run_bind, run_word. rewrite run_bind, run_word.
@@ -1106,7 +1106,7 @@ Lemma frame_body_enc nb dur chunks t :
 Proof.
   intros Hwf Hs. unfold frame_body. rewrite run_bind, run_iterZ. unfold zlen. rewrite Nat2Z.id.
   rewrite read_chunks_enc by (try assumption; lia). cbn [run fst].
-  rewrite app_nil_r, rev_involutive. reflexivity.
+  rewrite frev_eq, app_nil_r, rev_involutive. reflexivity.
 Qed.
 
 (* framing of an encoded frame: its duration and its chunks *)
@@ -1135,7 +1135,7 @@ Proof.
   destruct (pi_nframes p <=? fid); [reflexivity|].
   rewrite run_bind, run_iterZ. unfold zlen. rewrite Nat2Z.id.
   rewrite read_chunks_enc by (try assumption; lia). cbn [fst].
-  rewrite app_nil_r, rev_involutive, run_lift.
+  rewrite frev_eq, app_nil_r, rev_involutive, run_lift.
   destruct (rfold (process_chunk inflate fmt fid) chunks (with_times p (zadd fid dur (pi_times p))))
     as [p'|e|s]; reflexivity.
 Qed.
